@@ -925,7 +925,19 @@ def _render_context(tmpl, callable_, context, /, *args, **kwargs):
     # template with possibly updated context
     if not isinstance(tmpl, template.DefTemplate):
         # if main render method, call from the base of the inheritance stack
-        inherit, lclcontext = _populate_self_namespace(context, tmpl)
+        try:
+            inherit, lclcontext = _populate_self_namespace(context, tmpl)
+        except BaseException as error:
+            # an error while the inheritance chain is set up is an error
+            # of this render: the template's error handling applies, the
+            # way _exec_template applies it
+            if not (tmpl.format_exceptions or tmpl.error_handler):
+                raise
+            context._set_with_template(tmpl)
+            if not isinstance(error, Exception):
+                error = type(error)
+            _render_error(tmpl, context, error)
+            return
         _exec_template(inherit, lclcontext, args=args, kwargs=kwargs)
     else:
         # otherwise, call the actual rendering method specified
